@@ -334,6 +334,21 @@ func corpus6(rng *rand.Rand, n int) [][]byte {
 			out = append(out, r2.ToBytes())
 		}
 	}
+	// well-framed messages in which one option of a known type is malformed (cut short by an octet, or three octets
+	// where its layout wants another number): rejected as a whole - and if a decoder ever becomes lenient about them,
+	// what it keeps of them is checked like everything else
+	for _, c := range v6Known {
+		good := randOpt6(rng, c, 1).ToBytes()
+		for _, pay := range [][]byte{good[:len(good)/2], append(append([]byte{}, good...), 0)[:len(good)-1+2*(len(good)%2)], {1, 2, 3}} {
+			if len(pay) > 400 {
+				continue
+			}
+			msg := append([]byte{7, 1, 2, 3, 0, 14, 0, 0, byte(c >> 8), byte(c), byte(len(pay) >> 8), byte(len(pay))}, pay...)
+			msg = append(msg, 0, 8, 0, 2, 0, 1)
+			out = append(out, msg)
+			out = append(out, append(append(append([]byte{12, 0}, make([]byte, 32)...), 0, 9, byte(len(msg)>>8), byte(len(msg))), msg...))
+		}
+	}
 	// relay chains of depth 1..4 in which one level (any of them) carries no relay message option: decodable, and
 	// every operation that walks the chain meets the hole
 	for depth := 1; depth <= 4; depth++ {
